@@ -10,6 +10,7 @@ mod opcirc;
 mod ops;
 mod ops_ecc;
 mod ops_ff;
+mod ops_hash;
 mod pipeline;
 mod props;
 mod repair;
